@@ -576,12 +576,12 @@ theorem projectEK_elem (ap : Bool) (n : Str) (items : List (Str × Str)) (kw nm 
     (hkw : KwFactsG (lit "project") ['t', 'r', 'e'] kw = true) (hnm : Spells nm n) (h : ProjectOK n items) :
     (projectEK ap n items kw nm hkw hnm h).elem = (projectE ap n items h).elem := rfl
 
-/-- a sticky note with its keyword spelt `kw` -/
-def stickyEK (ap : Bool) (s : Sticky) (kw : Str) (hkw : KwFactsG (lit "note") ['t', 'r', 'e', 'p'] kw = true) (hs : StickyOK s) :
-    EForm ap where
+/-- a sticky note with its keyword spelt `kw` and its name spelt `nm` -/
+def stickyEK (ap : Bool) (s : Sticky) (kw nm : Str) (hkw : KwFactsG (lit "note") ['t', 'r', 'e', 'p'] kw = true)
+    (hnm : Spells nm s.name) (hs : StickyOK s) : EForm ap where
   pre := none
   head := kw.headD 'N'
-  body := kw.tail ++ ' ' :: (s.name ++ tail1 s.text)
+  body := kw.tail ++ ' ' :: (nm ++ tail1 s.text)
   elem := mkStickyElem s
   headOK := by
     obtain ⟨_, _, _, k, ks, rfl, h1, h2, h3, _⟩ := kwFactsG_elim _ _ kw hkw
@@ -593,26 +593,23 @@ def stickyEK (ap : Bool) (s : Sticky) (kw : Str) (hkw : KwFactsG (lit "note") ['
   noTab := by
     obtain ⟨_, _, h0, k, ks, rfl, _⟩ := kwFactsG_elim _ _ kw hkw
     intro c hc
-    simp only [List.headD_cons, List.tail_cons, List.mem_cons, List.mem_append] at hc
-    rcases hc with rfl | hc | hc
-    · exact h0 _ (by simp)
-    · exact h0 _ (by simp [hc])
+    have e : (k :: ks).headD 'N' :: ((k :: ks).tail ++ ' ' :: (nm ++ tail1 s.text)) = (k :: ks) ++ [' '] ++ nm ++ tail1 s.text := by simp
+    rw [e] at hc
+    simp only [List.mem_append] at hc
+    rcases hc with ((h' | h') | h') | h'
+    · exact h0 c h'
+    · exact (by decide : ∀ c ∈ [' '], c ≠ '\t') c h'
+    · exact hnm.1 c h'
     · have := stickyText_no_tab s.name s.text hs.2.1 hs.2.2.1 c
       apply this
       show c ∈ 'N' :: 'o' :: 't' :: 'e' :: ' ' :: (s.name ++ tail1 s.text)
-      rcases hc with rfl | hc
-      · simp
-      · simp [hc]
+      simp [h']
   parse := by
     intro c c0 post hb hr0 hp0 _ hends
     obtain ⟨hlen, hswc, _, k, ks, rfl, hk1, _, _, _, hoth⟩ := kwFactsG_elim _ _ kw hkw
-    obtain ⟨n0, ns, hname⟩ : ∃ n0 ns, s.name = n0 :: ns := by
-      cases hn : s.name with
-      | nil => exact absurd hn hs.1
-      | cons a as => exact ⟨a, as, rfl⟩
-    have hr0' : c0.rest = (k :: ks) ++ (' ' :: ((n0 :: ns) ++ ' ' :: '{' :: '\n' :: ' ' :: ' ' :: ' ' :: ' ' ::
+    have hr0' : c0.rest = (k :: ks) ++ (' ' :: (nm ++ ' ' :: '{' :: '\n' :: ' ' :: ' ' :: ' ' :: ' ' ::
         '\'' :: (prepareTextForDbml s.text ++ '\'' :: '\n' :: '}' :: post))) := by
-      rw [hr0, hname]; simp [tail1, tail2, tail3]
+      rw [hr0]; simp [tail1, tail2, tail3]
     have hN0 : Next c0 k _ := skipWs_rest_head c0 k _ (by rw [hr0']; rfl) hk1
     have htab : tableRule ap c = .fail :=
       tableRule_fail' ap c c0 [] hb (ckw_fail _ c0 _ _ hN0 (swc_head_false k _ "table" 't' _ rfl (hoth 't' (by simp))))
@@ -628,16 +625,15 @@ def stickyEK (ap : Bool) (s : Sticky) (kw : Str) (hkw : KwFactsG (lit "note") ['
     have h1 : C13.oneLine s.text = true := oneLine_of_plain' s.text hs.2.2.1
     obtain ⟨c1, hk, hr1, hp1⟩ := clit_ok "note" c0 (k :: ks) _
       (skipWs_rest_head c0 k _ (by rw [hr0']; rfl) hk1) (by rw [hlen]; rfl) (startsWithCaseless_append _ _ _ hswc) hp0
-    obtain ⟨c9, hrule, hQ⟩ := stickyNoteRule_from c c0 c1 n0 ns s.text post (After post) hb hk hr1 hp1
-      (by rw [← hname]; exact hs.2.1) h1 hs.2.2.2.1
+    obtain ⟨c9, hrule, hQ⟩ := stickyNoteRule_from c c0 c1 nm s.name s.text post (After post) hb hk hr1 hp1
+      hnm h1 hs.2.2.2.1
       (fun c7 hr7 hp7 => endRule_afterE c7 post hends hr7 hp7)
     refine ⟨c9, ?_, hQ⟩
     unfold element alt mkStickyElem
-    rw [← hname] at hrule
     simp only [bind, pbind, htab, href, henum, hgrp, hprj, hrule, pure, ppure]
 
-theorem stickyEK_elem (ap : Bool) (s : Sticky) (kw : Str) (hkw : KwFactsG (lit "note") ['t', 'r', 'e', 'p'] kw = true)
-    (hs : StickyOK s) : (stickyEK ap s kw hkw hs).elem = (stickyE ap s hs).elem := rfl
+theorem stickyEK_elem (ap : Bool) (s : Sticky) (kw nm : Str) (hkw : KwFactsG (lit "note") ['t', 'r', 'e', 'p'] kw = true)
+    (hnm : Spells nm s.name) (hs : StickyOK s) : (stickyEK ap s kw nm hkw hnm hs).elem = (stickyE ap s hs).elem := rfl
 
 /-! ### the keyword `TableGroup` in any case -/
 
